@@ -957,6 +957,31 @@ func runAlloc(args []string) error {
 		return runAllocWalk(t, *seed, *domain, *walks)
 	case "conc":
 		return runAllocConc(t, *seed, *rounds)
+	case "huge":
+		// pools of 2^64 blocks and more: either the constructor refuses them, or the allocator really has that many blocks -
+		// then its first Allocate (nothing is outstanding) succeeds
+		for _, g := range [][2]interface{}{{"2001:db8:0:1::/64", 128}, {"2001:db8::/32", 96}, {"::/0", 64}, {"::/0", 128}, {"2001:db8::/48", 127}, {"fd00::/8", 72}} {
+			_, pool, _ := net.ParseCIDR(g[0].(string))
+			e := Ev{"ev": "huge", "pool": g[0], "page": g[1], "ctor": "err", "alloc": "none"}
+			func() {
+				defer func() {
+					if r := recover(); r != nil {
+						e["ctor"] = "panic"
+					}
+				}()
+				a, err := bitmap.NewBitmapAllocator(*pool, g[1].(int))
+				if err == nil && a != nil {
+					e["ctor"] = "ok"
+					if _, err := a.Allocate(net.IPNet{}); err == nil {
+						e["alloc"] = "ok"
+					} else {
+						e["alloc"] = "err"
+					}
+				}
+			}()
+			t.Emit(e)
+		}
+		return nil
 	case "probe":
 		return runAllocProbe(t)
 	}
